@@ -63,6 +63,7 @@ type TxShape struct {
 	Meta     PayloadShape `json:"meta,omitempty"`
 	Data     PayloadShape `json:"data,omitempty"` // frame layout of the transaction bytes (default: one frame)
 	Sig      *[64]byte    `json:"sig,omitempty"`  // explicit first signature (collision scenarios)
+	Keys     [][32]byte   `json:"keys,omitempty"` // explicit extra static account keys (constructed addresses)
 }
 
 type BlockShape struct {
@@ -434,6 +435,9 @@ func (g *gen) tx(ts TxShape, slot uint64, pos, blockIdx, counter int) TxTruth {
 	keys := []solana.PublicKey{payer}
 	for _, a := range ts.Accounts {
 		keys = append(keys, Account(a))
+	}
+	for _, k := range ts.Keys {
+		keys = append(keys, solana.PublicKey(k))
 	}
 	program := solana.SystemProgramID
 	if ts.Vote {
